@@ -125,7 +125,7 @@ def trace(P, fname, page_type, has_crc, verify, stored_crc, computed_crc, codec,
         return computed_crc
     hooks = {"parquet_parse_page_header": parse_hdr, "malloc": malloc, "carquet_crc32_update": crc_update,
              "free": lambda ev, a, it: ev.append(("free", bid(a[0]))),
-             "read_at": read_at, "fseek": fseek, "fread": fread,
+             "fseek": fseek, "fread": fread,         # (the seek-and-read helper of the stdio loaders runs as written)
              "mmap_available": lambda ev, a, it: (max(0, fsize - a[1]) if isinstance(a[1], int) and a[1] >= 0 else 0),
              "carquet_crc32": lambda ev, a, it: ev.append(("crc", bid(a[0]), a[1])) or computed_crc,
              "carquet_error_set": lambda ev, a, it: None,
